@@ -10,6 +10,7 @@ EXPLANATION = (
     "[DISP-REACH] leaves of multi-definition PGNs are referenced only from their dispatcher. [ENC-NAME] exactly one of "
     "encode_pgn_<PGN> / encode_pgn_<PGN>_<Id> exists per definition, matching _call_encode_function's lookup order. "
     "[GEN-DEC id] ties leaf <-> definition <-> reported id. Decided completely for the dispatch decision; nothing undecided."
+    " A dispatcher whose structural reading differs from the database (nested tests, a dictionary, a helper predicate) is decided by a decision table over payload classes; the encoder lookup is interpreted for every definition."
 )
 ASSUMPTIONS = ["CPython ast parser", "Python if/return chains are first-match", "canboat.json is the oracle",
                "sym.py constant folding of >> & == on int literals"]
